@@ -53,6 +53,13 @@ def main():
             rc, o = sh("git apply %s %s && cargo test --offline %s 2>&1 | tail -8" % (mut, demo, filt), cwd=wt)
             res["demo_with_change"] = "fails" if "test result: FAILED" in o or "panicked" in o else "DOES NOT FAIL: " + o[-300:]
             sh("git checkout -- . && git clean -fdq src", cwd=wt)
+        elif os.path.exists("%s/demo-%d.py" % (out, n)):
+            py = "%s/demo-%d.py" % (out, n)
+            rc, o = sh("cargo build --offline 2>&1 | tail -1 && python3 %s %s" % (py, wt), cwd=wt, timeout=900)
+            res["demo_without_change"] = "passes" if rc == 0 else "DOES NOT PASS: " + o[-300:]
+            rc, o = sh("git apply %s && cargo build --offline 2>&1 | tail -1 && python3 %s %s" % (mut, py, wt), cwd=wt, timeout=900)
+            res["demo_with_change"] = "fails" if rc != 0 else "DOES NOT FAIL: " + o[-300:]
+            sh("git checkout -- . && git clean -fdq src", cwd=wt)
         else:
             res["demo_without_change"] = res["demo_with_change"] = "not a cargo-test demo (see meta.demo_cmd); not re-run by this tool"
         rc, o = sh("git apply %s && cargo test --offline 2>&1 | grep 'test result'" % mut, cwd=wt)
@@ -78,6 +85,9 @@ def main():
         shutil.copy(mut, d + "/patch.diff")
         if os.path.exists(demo):
             shutil.copy(demo, d + "/demo.diff")
+        for extra in ("demo-%d.py" % n, "lspclient.py"):
+            if os.path.exists("%s/%s" % (out, extra)):
+                shutil.copy("%s/%s" % (out, extra), d + "/" + extra)
         meta["what_i_ran"] = res
         json.dump(meta, open(d + "/meta.json", "w"), indent=1, ensure_ascii=False)
         print(json.dumps(res, indent=1)[:1500])
